@@ -20,6 +20,7 @@ ENVELOPE = ('ISA', 'GS', 'ST', 'SE', 'GE', 'IEA')
 class Fault(object):
     def __init__(self, **kw):
         self.alters_matching = False
+        self.seg_pos_max = None
         self.positions = None
         self.sub_pos = None
         self.value = None
@@ -293,6 +294,10 @@ class _K(object):
                 curv = doc.recs[i].vals[ep - 1] if ep <= len(doc.recs[i].vals) else ''
                 if not isinstance(curv, list) or sum(1 for x in curv if x != '') < 2:
                     return False
+            vals = doc.recs[i].vals
+            others = sum(1 for q, v in enumerate(vals, 1) if q != ep and (any(x != '' for x in v) if isinstance(v, list) else v != ''))
+            if others == 0:
+                return False        # blanking the only element empties the segment: a different fault
             return _present(cur) and node.usage == 'R' and _plain_site(i, node, ep, sp, cur, doc) and ep not in syntax_positions(seg)
         s = _sites(rng, doc, pred)
         if not s:
@@ -474,10 +479,18 @@ class _K(object):
         i = rng.choice(cands)
         d = clone(doc)
         node = d.recs[i].node
+        del_chain = list(d.recs[i].chain)
         del d.recs[i]
         fix_se(d)
         si, pos = locate(d, i)     # the position the segment would have had == position of its successor now
-        return Fault(doc=d, kind='missing_segment', level='seg', set_index=si, seg_pos=pos, seg_id=node.id, ele_pos=None, codes=['3'], rec_index=i,
+        # siblings at the same map position may come in any order, so the absence is only known (and may be reported) once a later
+        # position shows up: any position up to and including that segment is acceptable
+        hi = pos
+        j = i
+        while j < len(d.recs) and d.recs[j].node.pos == node.pos and d.recs[j].node.parent is node.parent and d.recs[j].chain == del_chain:
+            hi += 1
+            j += 1
+        return Fault(doc=d, kind='missing_segment', level='seg', set_index=si, seg_pos=pos, seg_pos_max=hi, seg_id=node.id, ele_pos=None, codes=['3'], rec_index=i,
                      node_path=node.path(), alters_matching=False)
 
     @staticmethod
@@ -528,6 +541,9 @@ class _K(object):
             sibs = [k for k, (l2, d2, a2, b2) in inst.items() if l2 is l and tuple(doc.recs[a2].chain[:d2]) == parent_key]
             last = max(inst[k][3] for k in sibs)
             if inst[(lid, n)][3] != last:
+                continue
+            # the copy is appended right after the instance: from there its first segment must match this loop's first node first
+            if gen_doc.first_match(doc.recs[b].node, doc.recs[a].node.id, doc.recs[a].vals) is not doc.recs[a].node:
                 continue
             cands.append((a, b, mx - len(sibs) + 1, l))
         if not cands:
